@@ -331,6 +331,132 @@ func b2m(b bool) byte {
 	return 0
 }
 
+// first-call: the first fold / validity call a fresh process makes is case i's function (the
+// sub runs first and the shards start at different cases), on inputs with and without a
+// deviation: the answer may not depend on what was called before.
+func runFirstCall(c *core.Case) {
+	c.Journal("first-call")
+	n := 0
+	check := func(what string, got, want bool, in string) {
+		n++
+		if got != want {
+			c.Violation("ascii."+what+"|first-call", fmt.Sprintf("got=%v,want=%v", got, want), fmt.Sprintf("%s as one of the first calls of the process, on %q", what, in), map[string]any{"func": what, "input": in})
+		}
+	}
+	type pair struct{ a, b string }
+	pairs := []pair{{"Hello, World", "hello, wOrld"}, {"Hello, World", "hellO, wOrlt"}, {"abc", "abd"}, {"content-type: text", "Content-Type"}, {"content-type: text", "Content-Typo"}, {"a much longer input, beyond sixteen bytes", "A MUCH LONGER INPUT, beyond sixteen bytez"}, {"x[", "x{"}, {"@", "`"}, {"k", "K"}}
+	fns := []func(p pair){
+		func(p pair) {
+			check("HasPrefixFold", ascii.HasPrefixFold([]byte(p.a), []byte(p.b)), refHasPrefixFold([]byte(p.a), []byte(p.b)), p.a+"|"+p.b)
+		},
+		func(p pair) {
+			check("HasPrefixFoldString", ascii.HasPrefixFoldString(p.a, p.b), refHasPrefixFold([]byte(p.a), []byte(p.b)), p.a+"|"+p.b)
+		},
+		func(p pair) {
+			check("HasSuffixFold", ascii.HasSuffixFold([]byte(p.a), []byte(p.b)), refHasSuffixFold([]byte(p.a), []byte(p.b)), p.a+"|"+p.b)
+		},
+		func(p pair) {
+			check("HasSuffixFoldString", ascii.HasSuffixFoldString(p.a, p.b), refHasSuffixFold([]byte(p.a), []byte(p.b)), p.a+"|"+p.b)
+		},
+		func(p pair) {
+			check("EqualFold", ascii.EqualFold([]byte(p.a), []byte(p.b)), refEqualFold([]byte(p.a), []byte(p.b)), p.a+"|"+p.b)
+		},
+		func(p pair) {
+			check("EqualFoldString", ascii.EqualFoldString(p.a, p.b), refEqualFold([]byte(p.a), []byte(p.b)), p.a+"|"+p.b)
+		},
+		func(p pair) {
+			check("Valid", ascii.Valid([]byte(p.a+"\x80")), false, p.a)
+			check("Valid", ascii.Valid([]byte(p.a)), true, p.a)
+		},
+		func(p pair) {
+			check("ValidString", ascii.ValidString(p.a+"\xff"), false, p.a)
+			check("ValidString", ascii.ValidString(p.b), true, p.b)
+		},
+		func(p pair) {
+			check("ValidPrint", ascii.ValidPrint([]byte(p.a+"\x7f")), false, p.a)
+			check("ValidPrint", ascii.ValidPrint([]byte(p.a)), true, p.a)
+		},
+		func(p pair) {
+			check("ValidPrintString", ascii.ValidPrintString("\x1f"+p.a), false, p.a)
+			check("ValidPrintString", ascii.ValidPrintString(p.b), true, p.b)
+		},
+		func(p pair) {
+			check("ValidPrintByte", ascii.ValidPrintByte(p.a[0]|0x80), false, p.a)
+			check("ValidByte", ascii.ValidByte(p.a[0]), true, p.a)
+		},
+		func(p pair) {
+			check("ValidPrintRune", ascii.ValidPrintRune(rune(p.a[0])+0x100), false, p.a)
+			check("ValidRune", ascii.ValidRune(rune(p.a[0])), true, p.a)
+		},
+	}
+	// this case's function first, on every pair; then all the others
+	for k := 0; k < len(fns); k++ {
+		f := fns[(c.Index+k)%len(fns)]
+		for _, p := range pairs {
+			f(p)
+			f(pair{p.b, p.a})
+		}
+	}
+	c.Count("evaluations.first-call", n)
+	c.Distinct(uint64(c.Index%len(fns)), true)
+}
+
+// long-lengths: lengths around every multiple of 64 up to 4096 and around 8192 / 65536, a
+// deviating byte near the start, the middle and the block boundaries at the end.
+func longLengths() []int {
+	var ls []int
+	for k := 3; k <= 64; k++ {
+		ls = append(ls, 64*k-1, 64*k, 64*k+1)
+	}
+	return append(ls, 8191, 8192, 8193, 65535, 65536, 65537)
+}
+
+func runLongLengths(c *core.Case) {
+	ls := longLengths()
+	L := ls[c.Index/3]
+	A := []int{0, 1, 7}[c.Index%3]
+	c.Journal(fmt.Sprintf("long-L%d", L))
+	page := aligned(L + 256)
+	for i := range page {
+		page[i] = 0xff
+	}
+	s := page[64+A : 64+A+L : 64+A+L]
+	for i := range s {
+		s[i] = "az AZ~09"[i%8]
+	}
+	var h uint64 = 14695981039346656037
+	n := 0
+	check := func(what string, got, want bool, p int, v byte) {
+		n++
+		h = (h ^ uint64(b2i(got))) * 1099511628211
+		if got != want {
+			c.Violation("ascii."+what+"|long", fmt.Sprintf("got=%v,want=%v", got, want), fmt.Sprintf("%s on len=%d align=%d deviating byte %#x at %d (%d from the end)", what, L, A, v, p, L-p), map[string]any{"len": L, "align": A, "pos": p, "byte": v, "func": what})
+		}
+	}
+	eval := func(p int, v byte) {
+		wv, wp := refValid(s), refValidPrint(s)
+		check("Valid", ascii.Valid(s), wv, p, v)
+		check("ValidString", ascii.ValidString(bstr(s)), wv, p, v)
+		check("ValidPrint", ascii.ValidPrint(s), wp, p, v)
+		check("ValidPrintString", ascii.ValidPrintString(bstr(s)), wp, p, v)
+	}
+	eval(-1, 0)
+	for _, p := range []int{0, 1, 7, 8, 63, 64, L / 2, L - 257, L - 256, L - 255, L - 129, L - 128, L - 127, L - 65, L - 64, L - 63, L - 33, L - 32, L - 31, L - 17, L - 16, L - 15, L - 9, L - 8, L - 7, L - 2, L - 1} {
+		if p < 0 || p >= L {
+			continue
+		}
+		old := s[p]
+		for _, v := range []byte{0x1f, 0x7f, 0x80} {
+			s[p] = v
+			eval(p, v)
+		}
+		s[p] = old
+	}
+	c.Count("evaluations.predicate", n)
+	c.Distinct(core.Mix(uint64(L), uint64(A)+1000), true)
+	c.Digest(fmt.Sprintf("long.L%d.A%d", L, A), h)
+}
+
 func runByteRune(c *core.Case) {
 	c.Journal("byte-rune")
 	var h uint64 = 14695981039346656037
@@ -440,9 +566,11 @@ func errstr(e error) string {
 func init() {
 	core.Register(&core.Monitor{
 		Prop:    "C20",
-		Rule:    "valid-sweep: one case per (length, start alignment) of a slice inside a page-aligned buffer whose surroundings have the opposite classification (then again with the capacity reaching to the end of the buffer and the neighbouring bytes set to 0xff/0x80/0x7f/0x5f/0x1f/0x00/'a'); inside a case every position x every deviating value (all 256 values for lengths<=80, 7 boundary values above) is evaluated for Valid/ValidString/ValidPrint/ValidPrintString against byte-wise loops. fold-sweep: one case per (length, position); all 128x128 ASCII byte pairs (or the 768 letter-focused pairs) at that position for EqualFold/HasPrefixFold/HasSuffixFold and String variants plus the -1/0/+1 length relations and arguments that are views of one buffer sharing their start or their end (either one the longer). byte-rune: all 256 bytes and every rune. json-fastpath: strings/keys with one deviating byte at each position vs encoding/json. A case is distinct by its (length, alignment|position) and non-trivial when length>0. Every answer is folded into a per-case hash that must be equal in the default and purego builds.",
+		Rule:    "first-call: each of the twelve entry points as the first call a fresh worker process makes (the shards start at different cases), on matching and deviating inputs. long-lengths: lengths 64k-1, 64k, 64k+1 up to 4097 and around 8192 and 65536 at alignments 0/1/7, a deviating byte (0x1f, 0x7f, 0x80) at the start, the middle and at every block boundary of 8..256 bytes before the end. valid-sweep: one case per (length, start alignment) of a slice inside a page-aligned buffer whose surroundings have the opposite classification (then again with the capacity reaching to the end of the buffer and the neighbouring bytes set to 0xff/0x80/0x7f/0x5f/0x1f/0x00/'a'); inside a case every position x every deviating value (all 256 values for lengths<=80, 7 boundary values above) is evaluated for Valid/ValidString/ValidPrint/ValidPrintString against byte-wise loops. fold-sweep: one case per (length, position); all 128x128 ASCII byte pairs (or the 768 letter-focused pairs) at that position for EqualFold/HasPrefixFold/HasSuffixFold and String variants plus the -1/0/+1 length relations and arguments that are views of one buffer sharing their start or their end (either one the longer). byte-rune: all 256 bytes and every rune. json-fastpath: strings/keys with one deviating byte at each position vs encoding/json. A case is distinct by its (length, alignment|position) and non-trivial when length>0. Every answer is folded into a per-case hash that must be equal in the default and purego builds.",
 		Trusted: []string{"byte-wise reference loops in mon/c20 (transcribed from the statement)", "encoding/json (go1.23.5) for the dependent JSON fast path"},
 		Subs: []core.Sub{
+			{Name: "first-call", N: core.Const(24, 24), Run: runFirstCall},
+			{Name: "long-lengths", N: func(core.Tier) int { return 3 * len(longLengths()) }, Run: runLongLengths},
 			{Name: "valid-sweep", N: func(t core.Tier) int { d := validDims(t); return (d.maxLen + 1) * d.maxAlign }, Run: runValid},
 			{Name: "fold-sweep", N: func(t core.Tier) int {
 				if t == core.Thorough {
